@@ -113,7 +113,7 @@ func genStructure(out, repo string) {
 					switch n := n.(type) {
 					case *ast.RangeStmt:
 						if isMap(n.X) {
-							mapSites = append(mapSites, site{rel, fn, "range " + exprString(n.X)})
+							mapSites = append(mapSites, site{rel, fn, "range " + describe(info, n.X)})
 						}
 					case *ast.CallExpr:
 						if se, ok := n.Fun.(*ast.SelectorExpr); ok {
@@ -121,7 +121,7 @@ func genStructure(out, repo string) {
 								if pn, ok := info.Uses[id].(*types.PkgName); ok {
 									path := pn.Imported().Path()
 									if strings.HasSuffix(path, "maps") && (se.Sel.Name == "Keys" || se.Sel.Name == "Values" || se.Sel.Name == "Clone") && len(n.Args) == 1 {
-										mapSites = append(mapSites, site{rel, fn, "maps." + se.Sel.Name + " " + exprString(n.Args[0])})
+										mapSites = append(mapSites, site{rel, fn, "maps." + se.Sel.Name + " " + describe(info, n.Args[0])})
 									}
 									if path == "time" && se.Sel.Name == "Now" || path == "math/rand" || path == "math/rand/v2" || path == "unsafe" || path == "crypto/rand" {
 										clocks = append(clocks, site{rel, fn, path + "." + se.Sel.Name})
@@ -226,6 +226,35 @@ func genStructure(out, repo string) {
 	emit("namesRecvWrites", "type1/names: per method of the shared glyph map, the fields it assigns, the methods it calls and whether it takes the lock", recvWrites)
 	emit("clockSites", "uses of time.Now, math/rand, crypto/rand, unsafe or the %p verb", clocks)
 	lf.write(out)
+}
+
+// describe names the map an expression denotes in a way that survives renaming of local variables and
+// receivers: a field is named by the type it belongs to, a local variable by its type, a package-level
+// variable by its own name.
+func describe(info *types.Info, e ast.Expr) string {
+	tname := func(t types.Type) string {
+		if p, ok := t.(*types.Pointer); ok {
+			t = p.Elem()
+		}
+		if n, ok := t.(*types.Named); ok {
+			return n.Obj().Name()
+		}
+		return t.String()
+	}
+	switch x := e.(type) {
+	case *ast.SelectorExpr:
+		if tv, ok := info.Types[x.X]; ok && tv.Type != nil {
+			return "(" + tname(tv.Type) + ")." + x.Sel.Name
+		}
+	case *ast.Ident:
+		if o := info.Uses[x]; o != nil {
+			if o.Parent() == o.Pkg().Scope() {
+				return x.Name // package-level variable
+			}
+			return "local:" + tname(o.Type())
+		}
+	}
+	return exprString(e)
 }
 
 func returnsError(t types.Type) bool { return errorIndex(t) >= 0 }
